@@ -508,3 +508,105 @@ def emitter_no_abandon(cx, iid):
                     if not okp:
                         inst.violation(b.path, lab + " not followed by finalize", "after a successful `%s` the function can return without finalising the emitter: the frame under construction is dropped" % lab, at=b.span_at(l), detail={"offending_path": b.path_spans(w)[:16]})
                 inst.site(b, l, lab)
+
+
+def removal_implies_fin(cx, iid):
+    """T2 (converse of C17.c): a client leaves the server's address map only in its terminal state.  `state = Fin` is
+    what drops the HalfConnection, makes `active_clients.retain(is_active)` forget the client and turns the timers
+    that still hold an Rc to it into no-ops; an entry removed while Pending/Active/Closing keeps running (and its
+    stale timer later removes whatever newer connection is stored under the same address)."""
+    R = cx.R
+    with cx.instance(iid, "T2 PAIR", "every clients.remove(address) in the server is preceded on all paths by `state = Fin` on that client", floor=4) as inst:
+        n = 0
+        for ob in R.all_bodies():
+            if not ob.path.startswith("server::Server::"):
+                continue
+            rems = call_sites(ob, "HashMap::remove", r"arg1\.clients")
+            if not rems:
+                continue
+            fins = []
+            for loc, s in ob.assigns():
+                if s["pl"]["p"] and show(ob.place_expr(s["pl"])).endswith(".state") and show(ob.rvalue_expr(s["rv"])).startswith("State::Fin"):
+                    fins.append(loc)
+            n += len(rems)
+            cx.preceded_by(inst, ob, [(l, "clients.remove(address)") for l, _ in rems], fins, "clients.remove without state = Fin", "client.state = State::Fin")
+        if n == 0:
+            inst.violation("server::Server", "clients.remove", "no clients.remove site found in the server (anchor)")
+
+
+def resync_walk(cx, iid):
+    """T5: PacketReceiver::resynchronize walks from base_id towards the sender's next id and stops at the first slot
+    that still holds a produced-but-undelivered packet.  Every id it moves past — the base slot included — must
+    have been tested *before* the step: a walk that steps first never looks at the base slot and lets the window
+    advance over a complete packet the application has not read yet (its allocation is released while its payload
+    stays in the delivery entries, and a Reliable packet is skipped)."""
+    R = cx.R
+    with cx.instance(iid, "T5 LOOP (test before step)", "resynchronize tests the produced-flag of an id before stepping past it, starting with base_id; the window is advanced to the id the walk stopped at", floor=2) as inst:
+        b = R.body("PacketReceiver::resynchronize")
+        walks = [(L, var, inits, end) for L, var, inits, end in _id_walks(b) if end == "arg2" and inits == ["arg1.base_id"]]
+        if len(walks) != 1:
+            inst.violation(b.path, "walk", "expected one walk `id = base_id; while id != sender_next_id { …; id = add(id,1) }` in resynchronize, found %d" % len(walks))
+            return
+        L, var, inits, end = walks[0]
+        n = int(var[3:])
+        step_bbs = {loc.bb for loc, kind, node in b.defs.get(n, []) if loc.bb in L["body"]}
+        tests = set()
+        for bb in L["body"]:
+            t = b.term(bb)
+            if t["k"] == "switch":
+                s = show(b.operand_expr(t["op"]))
+                if re.search(r"arg1\.entry_flags\[div\(cast<usize>\(bitand\((arg1\.receive_window_mask,%s|%s,arg1\.receive_window_mask)\)\),64\)\]" % (var, var), s):
+                    tests.add(bb)
+                    inst.site(b, Loc(bb, 0), "produced-flag test of the walked id")
+        if not tests:
+            inst.violation(b.path, "flag test", "the walk no longer tests entry_flags of the id it is at")
+            return
+        # from the loop header, can the step be reached without passing a test?
+        from collections import deque
+        dq = deque([y for y, _ in b.succ[L["header"]] if y in L["body"]])
+        seen = set()
+        while dq:
+            x = dq.popleft()
+            if x in seen or x in tests:
+                continue
+            seen.add(x)
+            if x in step_bbs:
+                inst.violation(b.path, "step before test", "the walk steps past an id without having tested its produced-flag first (the base slot is never inspected)", at=b.span_at(Loc(x, 0)))
+                break
+            for y, _ in b.succ[x]:
+                if y in L["body"] and y != L["header"]:
+                    dq.append(y)
+        # the stepping edge is the flag-clear edge, and the window is advanced to the walked id
+        cs = [show(b.call_expr(t)) for l, t in b.calls("PacketReceiver::advance_window")]
+        inst.site(b, None, "advance_window calls: %s" % cs)
+        if cs != ["PacketReceiver::advance_window(arg1,%s)" % var]:
+            inst.violation(b.path, "advance target", "resynchronize advances the window with %s, expected the id the walk stopped at" % cs)
+        fa = cx.fa(b)
+        for sb in step_bbs:
+            g, bad = dnf_holds(fa.at(Loc(sb, 0)), [[r"eq\(0,bitand\(arg1\.entry_flags\[.*\],shl\(1,.*\)\)\)"]])
+            if not g:
+                inst.violation(b.path, "step over a produced packet", "the walk steps past an id whose produced-flag is not known to be clear", at=b.span_at(Loc(sb, 0)))
+
+
+def heap_order(cx, iid, which):
+    """T4 SIBLING: the timer queue (server events) and the resend queue are BinaryHeaps used as earliest-first
+    queues.  std's BinaryHeap compares through PartialOrd's operators, the rest of the code through Ord: both must
+    be the *reversed* order of the time field and agree with each other.  Accepted spellings of "reversed":
+    reverse(a.t.cmp(b.t)) and b.t.cmp(a.t); partial_cmp = Some(<that>) or Some(self.cmp(other))."""
+    R = cx.R
+    TYPES = {"event": ("server::event_queue::Event", "time"), "resend": ("half_connection::resend_queue::Entry", "resend_time")}
+    with cx.instance(iid, "T4 SIBLING (heap order)", "Ord::cmp and PartialOrd::partial_cmp of the earliest-first heaps are both the reversed order of the time field", floor=2) as inst:
+        for w in which:
+            ty, fld = TYPES[w]
+            rev = (r"Ordering::reverse\(u64::cmp\(arg1\.%s,arg2\.%s\)\)" % (fld, fld), r"u64::cmp\(arg2\.%s,arg1\.%s\)" % (fld, fld))
+            c = R.body("<%s as std::cmp::Ord>::cmp" % ty)
+            pc = R.body("<%s as std::cmp::PartialOrd>::partial_cmp" % ty)
+            ce, pe = show(c.local_expr(0)), show(pc.local_expr(0))
+            inst.site(c, None, "%s::cmp = %s" % (ty.split("::")[-1], ce))
+            inst.site(pc, None, "%s::partial_cmp = %s" % (ty.split("::")[-1], pe))
+            if not any(re.fullmatch(x, ce) for x in rev):
+                inst.violation(c.path, "cmp", "%s::cmp is `%s`, expected the reversed order of %s (earliest first in a max-heap)" % (ty, ce, fld))
+            okp = any(re.fullmatch(r"Some\{%s\}" % x, pe) for x in rev) or re.fullmatch(r"Some\{<%s as std::cmp::Ord>::cmp\(arg1,arg2\)\}|Some\{%s::cmp\(arg1,arg2\)\}|Some\{Ord::cmp\(arg1,arg2\)\}" % (re.escape(ty), re.escape(ty.split("::")[-1])), pe)
+            if not okp:
+                inst.violation(pc.path, "partial_cmp", "%s::partial_cmp is `%s`: it disagrees with Ord::cmp / is not the reversed order of %s, and BinaryHeap orders through it" % (ty, pe, fld))
+            # the queue really is a BinaryHeap of this type
